@@ -191,6 +191,11 @@ def run(tier, seed, budget):
     rel = common.build('wsrv', 'release')
     tasks = [{'part': 'b', 'binary': rel, 'seed': seed, 'idx': i, 'backend': ['fd', 'mmap'][i % 2]} for i in range(3 if q else 60)]
     tasks += [{'part': 'a', 'binary': dbg, 'seed': seed, 'idx': i, 'backend': ['fd', 'mmap'][i % 2]} for i in range(40 if q else 3000)]
+    if not q:
+        # mix the long reclamation histories with the short interleaved programs, so that a budget-limited run covers both parts
+        head, rest = tasks[:6], tasks[6:]
+        rng_for(seed, 'C13', 'order').shuffle(rest)
+        tasks = head + rest
     for t, res in pmap(task_fn, tasks, jobs=12, budget_s=budget):
         if isinstance(res, Exception):
             rep.add_inconclusive(repr(res)); continue
